@@ -115,7 +115,7 @@ def gen_cases(rng, tier):
                                     nanpos=nanpos, max_batches=7)
             ex = rng.choice(['empty', 'rows'])
             for op in gen_ops(rng, tab['t'] is not None, tier):
-                yield {'tab': tab, 'sizes': sizes, 'ex': ex, 'op': op}
+                yield {'tab': tab, 'sizes': sizes, 'ex': ex, 'op': op, 'late_resume': rng.random() < 0.35}
 
 
 # ---- state exposure ------------------------------------------------------------
@@ -144,12 +144,14 @@ def run_a(case, ctx):
     if tr.build_error is not None:
         return batches, None, None, None, tr.build_error
     results, states = [None] * nb, [None] * nb
+    raw_states = [None] * nb       # the emitted state objects themselves, as they are once the run has finished
     for k in range(nb):
         if tr.errs[k] is not None or len(tr.outs[k]) != 1:
             continue
         o = tr.outs[k][0]
         if mode == 'with_state':
             states[k], results[k] = o[0], o[1]
+            raw_states[k] = tr.raw[k][0][0]
         else:
             results[k] = o
             if mode == 'result':
@@ -176,6 +178,7 @@ def run_a(case, ctx):
         for k in range(nb):
             if rtr.errs[k] is None and len(rtr.outs[k]) == 1 and tr.errs[k] is None:
                 states[k] = rtr.outs[k][0][0]
+    run_a.raw_states = raw_states
     return batches, results, tr.errs, states, None
 
 
@@ -217,7 +220,15 @@ def check_case(case, ctx):
         ctx.count('cuts_before_any_row' if cum == 0 else 'cuts_inside_data')
         resumed += 1
         ws = bool(op.get('resume_with_state')) and exposure(op) == 'with_state'
-        tr = E.run_pipeline(op, example, batches[k + 1:], start=copy.deepcopy(states[k]), with_state=ws)
+        late = bool(case.get('late_resume')) and run_a.raw_states[k] is not None
+        if late:
+            # the state object exactly as emitted, used only after the producing pipeline has moved on: an emitted
+            # state must be a snapshot, not a view of structures the pipeline keeps mutating
+            ctx.count('cuts_resumed_late_from_the_emitted_object')
+            start_state = run_a.raw_states[k]
+        else:
+            start_state = copy.deepcopy(states[k])
+        tr = E.run_pipeline(op, example, batches[k + 1:], start=start_state, with_state=ws)
         if tr.build_error is not None and case.get('ex') == 'empty':
             ctx.count('resume_build_exception_on_empty_example')
             tr = E.run_pipeline(op, E.example_df(case['tab'], 'rows'), batches[k + 1:], start=copy.deepcopy(states[k]), with_state=ws)
@@ -238,7 +249,7 @@ def check_case(case, ctx):
                 ctx.count('both_runs_raised')
                 continue
             if eb is not None:
-                ctx.violate('resumed-raised@%s:%s' % (label, cutcls), '%s -> resumed run raised %r at batch %d' % (where, eb, i + 1), case)
+                ctx.violate('resumed-%sraised@%s:%s' % ('late-' if late else '', label, cutcls), '%s -> resumed run raised %r at batch %d' % (where, eb, i + 1), case)
                 continue
             if ea is not None:
                 ctx.violate('resumed-did-not-raise@%s:%s' % (label, cutcls), '%s -> uninterrupted run raised %r at batch %d, resumed run emitted %s'
@@ -252,7 +263,7 @@ def check_case(case, ctx):
                 got = got[1]
             d = E.compare(got, results[i], ordered=(fam in ('roll', 'ewm')))
             if d is not None:
-                ctx.violate('resumed-%s@%s:%s' % (d[0], label, cutcls), '%s -> at batch %d the resumed run emitted %s, the uninterrupted run %s (%s)'
+                ctx.violate('resumed-%s%s@%s:%s' % ('late-' if late else '', d[0], label, cutcls), '%s -> at batch %d the resumed run emitted %s, the uninterrupted run %s (%s)'
                             % (where, i + 1, E.show(got), E.show(results[i]), d[1]), case)
     nontrivial = interesting and sum(1 for n_ in lens if n_ > 0) >= 2
     return resumed, nontrivial
